@@ -3,6 +3,7 @@ package props
 import (
 	"go/token"
 	"go/types"
+	"sort"
 	"strings"
 
 	"golang.org/x/tools/go/ssa"
@@ -21,7 +22,7 @@ func init() {
 			"R2 loop progress: every loop in the client is a range/counted loop over a finite value, or every cycle passes through a call that consumes a server response (client.do), or strictly shortens a string (the slice's low bound is proven >= 1); " +
 			"R3 the status gate: (*http.Client).Do is called only from client.do, whose non-2xx/unexpected statuses become errors, and error bodies are read only through io.LimitReader. " +
 			"R1b ociref.IsValidDigest answers true only when go-digest's Parse/Validate reported no error (so validated digests have an available algorithm). " +
-			"R4 the lock-order graph of ociclient is acyclic (no method takes a mutex that may already be held on the way to it). " +
+			"R6 the same panic inventory over the challenge parser of the authorising transport (challengeFromResponse and the private helpers it reaches), whose input is a Www-Authenticate header chosen by the server; the bounds prover's loop invariants (counted loop: i <= len(s) after `for i < len(s)`; lockstep cursors: j - i never grows when j advances at most as fast as i) discharge the scanner loops and the unescape buffer. R4 the lock-order graph of ociclient is acyclic (no method takes a mutex that may already be held on the way to it). " +
 			"R5 in the authorising transport's challenge parser, the buffer that receives the unescaped rest of a quoted string is at least len(s)-1 bytes (an unterminated string with one escape writes exactly that many).",
 		NotDecided: "the quality/wording of the returned errors is not decided.",
 		Technique:  "static analysis: panic-site inventory with a difference-bound prover and guard obligations (disjunctive path facts), natural-loop progress classification",
@@ -40,6 +41,22 @@ func runC18(c *core.Ctx) {
 	validDigestMeansParseable(c, "C18.R1")
 	clientLocksAcyclic(c, "C18.R4")
 	unescapeBufferHoldsTheRest(c, "C18.R5")
+	// R6: the challenge parser of the authorising transport sees a header chosen by the server
+	if cfr := c.P.Func("ociauth", "challengeFromResponse"); cfr == nil {
+		c.Fail("C18.R6", "anchor/ociauth.challengeFromResponse", 0, "ociauth.challengeFromResponse not found")
+	} else {
+		afns := []*ssa.Function{cfr}
+		for h := range reachHelpers(cfr, 4) {
+			if h != cfr {
+				afns = append(afns, h)
+			}
+		}
+		sort.Slice(afns, func(i, j int) bool { return afns[i].String() < afns[j].String() })
+		total, _ := panicInventory(c, "C18.R6", afns, nil)
+		if total < 8 {
+			c.Fail("C18.R6", "instance-floor", 0, sprintf("only %d panic-capable sites enumerated in the challenge parser", total))
+		}
+	}
 }
 
 func c18Discharger(c *core.Ctx, m *serverModel) Discharger {
